@@ -120,6 +120,7 @@ Inductive fstep_shape (fs : fstate) : fevent -> fstate -> Prop :=
     fstep_shape fs (Ev (SFC n)) (mkF (fb fs) (f_cancelled fs) false true (remove_node n (f_rd fs)))
 | fs_base e st' :
     f_aborted fs = false -> (forall b, e <> Ret b) -> step g c (fb fs) e = Some st' ->
+    on_virtual c ext e = false ->
     fstep_shape fs (Ev e) (with_base fs st')
 | fs_exx n was :
     f_aborted fs = false -> ph (fb fs) n = ExQ was ->
@@ -127,6 +128,13 @@ Inductive fstep_shape (fs : fstate) : fevent -> fstate -> Prop :=
 | fs_sfx n :
     f_aborted fs = false -> (ph (fb fs) n = MF1 \/ (exists sk, ph (fb fs) n = F1 sk) \/ ph (fb fs) n = MtF1) ->
     fstep_shape fs (SFX n) (with_base fs (set_ph (fb fs) n Dead))
+| fs_srx n :
+    f_aborted fs = false -> ph (fb fs) n = MF2 ->
+    fstep_shape fs (SRX n) (mkF (set_ph (fb fs) n Dead) (f_cancelled fs) false true (n :: f_rd fs))
+| fs_fsx n :
+    f_aborted fs = false -> (ph (fb fs) n = NeedFetch \/ ph (fb fs) n = Waiting) ->
+    on_virtual c ext (ExB n) = false ->
+    fstep_shape fs (FSX n) (with_base fs (set_ph (fb fs) n Dead))
 | fs_pux n ref stored sk rd :
     f_aborted fs = false -> ref = root_refpush c n -> ph (fb fs) n = Pushing sk rd ->
     fstep_shape fs (PuX n ref stored)
@@ -158,13 +166,14 @@ Lemma fstep_inv fs fe fs' : fstep g c ext fs fe = Some fs' ->
 Proof.
   unfold fstep. intro H.
   destruct (returned (fb fs)) eqn:Hr; [discriminate|]. split; [reflexivity|].
-  destruct fe as [e|n|n|n ref stored|n set|n stored| | |].
+  destruct fe as [e|n|n|n|n|n ref stored|n set|n stored| | |].
   - destruct e;
       try (destruct (f_aborted fs) eqn:Hab; [discriminate|];
            cbv iota beta in H;
            match type of H with
            | match step g c (fb fs) ?e with _ => _ end = _ =>
                destruct (step g c (fb fs) e) eqn:Hs; [|discriminate];
+               match type of H with (if ?v then _ else _) = _ => destruct v eqn:Hv; [discriminate|] end;
                injection H as <-; apply fs_base; auto; intros ?; discriminate
            end).
     { destruct (f_aborted fs) eqn:Hab; [discriminate|].
@@ -173,6 +182,7 @@ Proof.
         injection H as <-. apply fs_deadclose; auto.
         destruct (ph (fb fs) n); simpl in Hd; congruence.
       - destruct (step g c (fb fs) (SFC n)) eqn:Hs; [|discriminate].
+        destruct (on_virtual c ext (SFC n)) eqn:Hv; [discriminate|].
         injection H as <-. apply fs_base; auto. intros ?; discriminate. }
     match goal with |- fstep_shape _ (Ev (Ret ?b)) _ => destruct b end.
     + destruct (negb (tainted g fs) && ret_ok_guard g c ext (fb fs)) eqn:Hg; [|discriminate].
@@ -186,6 +196,13 @@ Proof.
   - destruct (f_aborted fs) eqn:Hab; [discriminate|].
     destruct (ph (fb fs) n) eqn:Hp; try discriminate;
     injection H as <-; apply fs_sfx; eauto.
+  - destruct (f_aborted fs) eqn:Hab; [discriminate|].
+    destruct (ph (fb fs) n) eqn:Hp; try discriminate.
+    injection H as <-. now apply fs_srx.
+  - destruct (f_aborted fs) eqn:Hab; [discriminate|].
+    destruct (ph (fb fs) n) eqn:Hp; try discriminate;
+    (destruct (on_virtual c ext (ExB n)) eqn:Hv; [discriminate|]);
+    injection H as <-; apply fs_fsx; auto.
   - destruct (f_aborted fs) eqn:Hab; [discriminate|].
     destruct (negb (eqb ref (root_refpush c n))) eqn:Hre; [discriminate|].
     destruct (ph (fb fs) n) eqn:Hp; try discriminate.
@@ -218,6 +235,8 @@ Proof.
   - eapply step_preserves_inv; eauto.
   - apply inv_kill; auto; congruence.
   - apply inv_kill; auto; destruct H0 as [H0|[[sk H0]|H0]]; congruence.
+  - (* SRX *) apply inv_kill; auto; congruence.
+  - (* FSX *) apply inv_kill; auto; destruct H0; congruence.
   - rewrite <- Hr. apply inv_fault; auto; try congruence.
     + destruct (stored && negb (has g (dst (fb fs)) n)) eqn:E; [|now left].
       right. apply andb_true_iff in E as [_ E]. apply negb_true_iff in E.
@@ -291,6 +310,15 @@ Lemma fclosed_always tr fs :
 Proof.
   intros Hx Hc Ha. unfold faccepts in Ha.
   exact (i_closed _ _ _ _ (frun_inv tr _ _ (finit_inv Hx) Ha) Hc).
+Qed.
+
+(* closure at the level of KEYS (what a digest-keyed store answers): whatever node the destination
+   "holds" by key has all its successors held -- needs mt_consistent (one digest, one successor set) *)
+Lemma fclosed_keys tr fs :
+  ext_ok -> closed_nodes g d0 -> mt_consistent g -> faccepts g c ext d0 tr = Some fs ->
+  forall n x, has g (dst (fb fs)) n = true -> In x (succ' g n) -> has g (dst (fb fs)) x = true.
+Proof.
+  intros Hx Hc Hmt Ha n x Hn Hsx. eapply key_closed; eauto. eapply fclosed_always; eauto.
 Qed.
 
 Lemma fclosed_every_prefix tr1 tr2 fs :
@@ -443,6 +471,10 @@ Proof.
     apply (i_bound _ _ _ _ I). congruence.
   - rewrite (any_dead_intro (set_ph (fb fs) n Dead) n); [apply orb_true_r | | cbn [set_ph ph]; apply upd_same].
     apply (i_bound _ _ _ _ I). destruct H0 as [H0|[[sk H0]|H0]]; congruence.
+  - rewrite (any_dead_intro (set_ph (fb fs) n Dead) n); [apply orb_true_r | | cbn [set_ph ph]; apply upd_same].
+    apply (i_bound _ _ _ _ I). congruence.
+  - rewrite (any_dead_intro (set_ph (fb fs) n Dead) n); [apply orb_true_r | | cbn [set_ph ph]; apply upd_same].
+    apply (i_bound _ _ _ _ I). destruct H0; congruence.
   - match goal with |- context [any_dead g ?s] =>
       rewrite (any_dead_intro s n); [apply orb_true_r | | cbn [ph]; apply upd_same] end.
     apply (i_bound _ _ _ _ I). congruence.
